@@ -1,20 +1,154 @@
 (* C01 Positioned stream delivery is gap-free, duplicate-free and ordered.
-   Property theorems only; proofs live in Proofs/Positioned*.v. *)
-From Coq Require Import List NArith Bool.
-From Cfg Require Import Model.Merge Model.Positioned Model.PositionedSpec Proofs.PositionedLib Proofs.PositionedInv.
+   Property theorems only; proofs live in Proofs/Positioned*.v.
+
+   Model: Model/Positioned.v, a labelled transition system of one connection / one channel /
+   one subscription attempt (client command or server-side Client.Subscribe) against a broker
+   stream with in-flight PUB/SUB tokens.  A schedule is a list of labels; every theorem
+   below quantifies over ALL schedules, i.e. all interleavings of the subscribe thread's
+   steps, the per-delivery steps (hub / Sync / CheckPosition / Enqueue), unsubscribe threads,
+   publishes, and the faults: LDrop, LDup, reorder and delay (LDeliver takes ANY token at ANY
+   time), lag flag, LClearHistory (trim), LEpochReset.
+   Specification: Model/PositionedSpec.v (written over the transport log and the broker's
+   ground truth only).
+
+   Configuration flags c_fix_anchor / c_fix_srvpubs = false is the code as it stands;
+   = true is the code with the two proposed patches.  [good c] = positioned, and whenever
+   recovery is requested the patched reply construction is used. *)
+From Coq Require Import List NArith Bool Sorting.Sorted.
+From Cfg Require Import Model.Merge Model.Positioned Model.PositionedSpec Proofs.PositionedLib
+  Proofs.Positioned Proofs.PositionedInv Proofs.PositionedEnd Proofs.PositionedRefute.
 Import ListNotations.
 Open Scope N_scope.
 
-(* For ALL schedules (interleavings of the subscribe thread, deliveries, unsubscribes,
-   publishes, and the PUB/SUB faults drop / dup / reorder-delay / lag / history clear /
-   epoch reset) the transport log meets the specification -- for every subscription
-   configuration in which recovery, when requested, goes through the anchored reply
-   ([good]: positioned; patch flags on whenever c_rec). *)
+(* ---- general form ---- *)
 Theorem C01_all_schedules : forall c ls s,
   good c -> run c init ls = Some s -> C01Spec (g_log s) (log s).
 Proof. exact c01_all_schedules. Qed.
 Print Assumptions C01_all_schedules.
 
+(* ---- per subscribe variant ---- *)
+
+(* client subscribe command, positioned, no recovery requested: THE CODE AS IT STANDS
+   (patch flags arbitrary: they are not consulted on this path) *)
+Theorem C01_client_positioned : forall since ep jl fa fs ls s,
+  run (mkCfg VClient true false since ep jl fa fs) init ls = Some s -> C01Spec (g_log s) (log s).
+Proof.
+  intros. eapply c01_all_schedules; [|eassumption].
+  split; [reflexivity|]. split; intros; discriminate.
+Qed.
+Print Assumptions C01_client_positioned.
+
+(* server-side Client.Subscribe, positioned, no RecoverSince: the code as it stands *)
+Theorem C01_server_positioned : forall since ep jl fa fs ls s,
+  run (mkCfg VServer true false since ep jl fa fs) init ls = Some s -> C01Spec (g_log s) (log s).
+Proof.
+  intros. eapply c01_all_schedules; [|eassumption].
+  split; [reflexivity|]. split; intros; discriminate.
+Qed.
+Print Assumptions C01_server_positioned.
+
+(* client subscribe command with recovery: holds for the PATCHED reply construction ... *)
+Theorem C01_client_recover_patched : forall since ep jl fs ls s,
+  run (mkCfg VClient true true since ep jl true fs) init ls = Some s -> C01Spec (g_log s) (log s).
+Proof.
+  intros. eapply c01_all_schedules; [|eassumption].
+  split; [reflexivity|]. split; intros; [reflexivity|discriminate].
+Qed.
+Print Assumptions C01_client_recover_patched.
+
+(* ... and is REFUTED for the code as it stands: by a PUB/SUB drop inside the subscribe
+   window, and even without any lost message (a delayed PUB/SUB copy of a publication the
+   client already has is sent again). Both witnesses were replayed on the implementation. *)
+Theorem C01_client_recover_refuted_drop :
+  exists s, run cfg_client_recover init sched_client_drop = Some s /\ ~ C01Spec (g_log s) (log s).
+Proof. exact c01_client_recover_refuted_drop. Qed.
+Print Assumptions C01_client_recover_refuted_drop.
+Theorem C01_client_recover_refuted_delay :
+  exists s, run cfg_client_recover init sched_client_delay = Some s /\ ~ C01Spec (g_log s) (log s).
+Proof. exact c01_client_recover_refuted_delay. Qed.
+Print Assumptions C01_client_recover_refuted_delay.
+
+(* server-side Client.Subscribe with RecoverSince: holds with both patches ... *)
+Theorem C01_server_recover_patched : forall since ep jl ls s,
+  run (mkCfg VServer true true since ep jl true true) init ls = Some s -> C01Spec (g_log s) (log s).
+Proof.
+  intros. eapply c01_all_schedules; [|eassumption].
+  split; [reflexivity|]. split; intros; reflexivity.
+Qed.
+Print Assumptions C01_server_recover_patched.
+
+(* ... and is REFUTED for the code as it stands by a fault-free schedule *)
+Theorem C01_server_recover_refuted :
+  exists s, run cfg_server_recover init sched_server = Some s /\ ~ C01Spec (g_log s) (log s).
+Proof. exact c01_server_recover_refuted. Qed.
+Print Assumptions C01_server_recover_refuted.
+
+(* ---- "... it ends the subscription instead of delivering past the gap" ---- *)
+
+(* consequence of the specification alone: an offset that was neither delivered nor
+   withheld is never passed *)
+Theorem C01_never_past_gap : forall glog l p0 r g,
+  C01Spec glog l -> recv l = Some (p0, r) ->
+  p0 < g -> ~ In g r -> ~ In g (withheld glog) -> forall o, In o r -> o < g.
+Proof. exact spec_never_past_gap. Qed.
+Print Assumptions C01_never_past_gap.
+
+(* every positioned configuration (patched or not), every schedule: after the unsubscribe
+   reply / unsubscribe push / disconnect no positioned publication is written *)
+Theorem C01_no_pub_after_end : forall c ls s,
+  c_pos c = true -> run c init ls = Some s -> no_pub_after_end (log s) = true.
+Proof. exact c01_no_pub_after_end. Qed.
+Print Assumptions C01_no_pub_after_end.
+
+(* the three insufficient-state branches of CheckPosition (lag, epoch, gap) deliver
+   nothing, keep the position and spawn the goroutine that ends the subscription ... *)
+Theorem C01_detect_spawns : forall c s p lag pos pep,
+  c_pos c = true -> ch s = Sub pos pep -> dl s = DPub p lag PCheck ->
+  (lag = true \/ (pe p <> pep /\ pep <> 0) \/ (lag = false /\ pe p = pep /\ pos + 1 < po p)) ->
+  exists s', step c s LCheck = Some s' /\ pending s' = S (pending s) /\ log s' = log s /\
+             ch s' = ch s /\ dl s' = DIdle.
+Proof. exact c01_detect_spawns. Qed.
+Print Assumptions C01_detect_spawns.
+
+(* ... which, when it runs, writes the insufficient-state unsubscribe (client-side
+   subscription) or disconnect (server-side subscription).  That it eventually runs is a
+   fairness assumption on the Go scheduler, not proved. *)
+Theorem C01_pending_ends_client : forall c s n pos pep,
+  c_var c = VClient -> pending s = S n -> up s = UIdle -> dl s = DIdle -> closed s = false ->
+  ch s = Sub pos pep ->
+  exists s', run c s [LUnsub UInsuff; LUnsubHub; LUnsubOut] = Some s' /\
+             log s' = log s ++ [FUnsubPush code_unsub_insufficient] /\
+             ch s' = NoCh /\ hub s' = false /\ pending s' = n.
+Proof. exact c01_pending_ends_client. Qed.
+Print Assumptions C01_pending_ends_client.
+Theorem C01_pending_ends_server : forall c s n,
+  c_var c = VServer -> pending s = S n -> closed s = false ->
+  exists s', step c s LAsyncDisc = Some s' /\
+             log s' = log s ++ [FDisconnect code_disc_insufficient] /\ closed s' = true.
+Proof. exact c01_pending_ends_server. Qed.
+Print Assumptions C01_pending_ends_server.
+
+(* ---- the oracle used on the implementation's transport log decides the specification ---- *)
 Theorem C01_oracle_sound : forall glog l, c01_oracle glog l = true -> C01Spec glog l.
 Proof. exact c01_oracle_sound. Qed.
 Print Assumptions C01_oracle_sound.
+Theorem C01_oracle_complete : forall glog l, C01Spec glog l -> c01_oracle glog l = true.
+Proof. exact c01_oracle_complete. Qed.
+Print Assumptions C01_oracle_complete.
+
+(* ---- non-vacuity ---- *)
+(* a schedule with recovery from history + buffer + live pushes + a filtered publication,
+   patched model: the hypotheses of the theorems are reachable and deliver publications *)
+Example C01_reachable_recover :
+  option_map log (run (mkCfg VClient true true 1 1 false true false) init
+    [P; P; P; D; D; D; LReserve; LStartBuf; LHubAdd; P; D; LSync; LHistRead; LPublish true 100%nat; D; LSync;
+     LMerge; LWriteReply; LCommit; LStopBuf; P; D; LSync; LCheck; LEnqueue])
+  = Some [FSubReply true [mkP 2 1 false; mkP 3 1 false; mkP 4 1 false] 1 1; FPub (mkP 6 1 false)].
+Proof. vm_compute. reflexivity. Qed.
+(* a live gap ends a client-side subscription with the insufficient-state unsubscribe *)
+Example C01_reachable_gap :
+  option_map log (run (mkCfg VClient true false 0 0 false false false) init
+    [LReserve; LStartBuf; LHubAdd; LHistRead; LMerge; LWriteReply; LCommit; LStopBuf;
+     P; P; LDrop 0%nat; D; LSync; LCheck; LUnsub UInsuff; LUnsubHub; LUnsubOut; P; D])
+  = Some [FSubReply false [] 0 1; FUnsubPush 2500].
+Proof. vm_compute. reflexivity. Qed.
